@@ -71,15 +71,16 @@ def _note(ctx, key, value):
 # strategies shared by several sub-checks
 # =============================================================================================
 def _pick(options):
-    """Uniform choice through a hashed wide integer draw: with ~40-100 examples per shard Hypothesis returns the
-    first element of sampled_from / False / short lists / small integers far more often than the others (measured 3:1)."""
+    """Near-uniform choice through a hashed wide integer draw.  With ~40-400 examples per shard Hypothesis returns the
+    first element of sampled_from / False / short lists far more often than the others (measured 3:1); with the hash
+    only the option hit by the integer 0 keeps a surplus (~1.5x), so the most general option is listed first."""
     options = list(options)
     return st.integers(0, 2**31 - 1).map(lambda k: options[((((k + 1) * 2654435761) % 2**32) >> 9) % len(options)])
 
 
 def _sized(elem, lo, hi):
     """List whose length is drawn first (uniformly), so that short lists do not dominate small shards."""
-    return st.tuples(_pick(range(lo, hi + 1)), st.lists(elem, min_size=hi, max_size=hi)).map(lambda t: t[1][: t[0]])
+    return _pick(range(lo, hi + 1)).flatmap(lambda n: st.lists(elem, min_size=n, max_size=n))
 
 
 _BOOL = _pick([True, False])  # (the first option is drawn ~1.5x as often: Hypothesis likes the integer 0)
@@ -820,11 +821,11 @@ def subchecks(tier, seed):
         {"atoms": [{"z": 1.0, "xyz": [0.0, 0.0, -1.0]}, {"z": 1.0, "xyz": [0.0, 0.0, 1.0]}], "spacing": 0.25, "extension": 2.0, "rotate": False, "weight": "default"},
     ]
     return [
-        SubCheck("uniform_layout", body_uniform_layout, strategy=_uniform_layout_strategy(), examples=1200 if q else 12000, shards=16),
-        SubCheck("tensor_layout", body_tensor_layout, strategy=_tensor_layout_strategy(), examples=1500 if q else 15000, shards=16),
-        SubCheck("weights", body_weights, strategy=_weights_strategy(), examples=1500 if q else 15000, cases=pin_weights + cases_weights(), shards=16),
-        SubCheck("from_molecule", body_from_molecule, strategy=_molecule_strategy(), examples=600 if q else 6000, cases=pin_molecule, shards=16),
-        SubCheck("closest_point", body_closest, strategy=_closest_strategy(), examples=2500 if q else 25000, cases=pin_closest, shards=16),
-        SubCheck("cube_roundtrip", body_cube, strategy=_cube_strategy(), examples=1200 if q else 12000, shards=16),
-        SubCheck("interpolate", body_interp, strategy=_interp_strategy(), examples=1600 if q else 16000, shards=16),
+        SubCheck("uniform_layout", body_uniform_layout, strategy=_uniform_layout_strategy(), examples=3000 if q else 30000, shards=16),
+        SubCheck("tensor_layout", body_tensor_layout, strategy=_tensor_layout_strategy(), examples=4000 if q else 40000, shards=16),
+        SubCheck("weights", body_weights, strategy=_weights_strategy(), examples=3000 if q else 30000, cases=pin_weights + cases_weights(), shards=16),
+        SubCheck("from_molecule", body_from_molecule, strategy=_molecule_strategy(), examples=1800 if q else 18000, cases=pin_molecule, shards=16),
+        SubCheck("closest_point", body_closest, strategy=_closest_strategy(), examples=6000 if q else 60000, cases=pin_closest, shards=16),
+        SubCheck("cube_roundtrip", body_cube, strategy=_cube_strategy(), examples=3000 if q else 30000, shards=16),
+        SubCheck("interpolate", body_interp, strategy=_interp_strategy(), examples=4000 if q else 40000, shards=16),
     ]
